@@ -16,6 +16,7 @@ import PDesy.Lemmas.Sort
 import PDesy.Lemmas.Alloc
 import PDesy.Lemmas.Elig
 import PDesy.Lemmas.Perform
+import PDesy.Model.SubProject
 
 namespace PDesy
 namespace NoWait
@@ -77,10 +78,14 @@ theorem chkWorking_auto (m : Model) (l : Live) (t : Nat) (ht : t < m.nT)
       (List.mem_filter.mpr ⟨List.mem_range.mpr ht, htar⟩) (Or.inl hl)
   rw [hw] at h; cases h
 
+/-- only at an ACTIVE step (a working step, or any step when automatic tasks are performed
+during absence): at a project absence step with the flag off nothing starts -/
 theorem stepBody_auto (m : Model) (p : Params) (s : St) (t : Nat) (ht : t < m.nT)
-    (ha : (m.task t).isAuto = true) (hc : (m.task t).comp = Option.none) :
+    (ha : (m.task t).isAuto = true) (hc : (m.task t).comp = Option.none)
+    (hact : activeAt p s.time = true) :
     (stepBody m p s).live.tstate t ≠ .ready := by
-  rw [Lifecycle.stepBody_tstate]
+  have hg : Lifecycle.startGuard p s = true := hact
+  rw [Lifecycle.stepBody_tstate, hg]
   exact chkWorking_auto m _ t ht ha hc
 
 /-! ### (d) finishing as early as possible -/
